@@ -20,7 +20,7 @@ CRATE = os.path.join(VERIF, "kani")
 TARGET = os.path.join(VERIF, ".target", "kani")
 GUARD = "contentauth_c2pa_rs_verif"
 
-CHECK_RE = re.compile(r"^Check (\d+): (\S+)\s*$")
+CHECK_RE = re.compile(r"^Check (\d+): (.+?)\s*$")
 STATUS_RE = re.compile(r"^\s+- Status: (\S+)")
 DESC_RE = re.compile(r'^\s+- Description: "(.*)"\s*$')
 LOC_RE = re.compile(r"^\s+- Location: (.*)$")
@@ -134,6 +134,8 @@ def classify(checks, info, rc, timed_out, text):
         return "INCONCLUSIVE", "compile error (harness or hook no longer matches /repo)", []
     if "Kani unexpectedly panicked" in text or "internal compiler error" in text:
         return "INCONCLUSIVE", "Kani compiler crash", []
+    if "Solver ran out of memory" in text or "std::bad_alloc" in text:
+        return "INCONCLUSIVE", "CBMC/SAT solver ran out of memory (limit exceeded)", []
     if info.get("verification") is None:
         if "std::bad_alloc" in text or "Out of memory" in text or rc in (-9, 137, -6, 134):
             return "INCONCLUSIVE", "CBMC out of memory / killed (rc=%s)" % rc, []
